@@ -15,7 +15,7 @@ from decimal import Decimal, getcontext
 from .common import fhex, ints
 
 PROP_FILE = "Properties/C02.v"
-GEN = ["GenC02"]
+GEN = ["GenC02", "GenC02imp"]
 RUN_FILES = ["Model/C02_run.v"]
 
 R_EARTH = 6370997.0
@@ -490,7 +490,7 @@ def xyz_hp(lon, lat):
 
 
 # ------------------------------------------------------------------------------------------ Coq text
-HDR = ("From Coq Require Import ZArith List Bool PrimFloat.\nFrom PR Require Import Base.F64 Base.ListX Model.KDTree Model.C02_run.\n"
+HDR = ("From Coq Require Import ZArith List Bool PrimFloat.\nFrom PR Require Import Base.F64 Base.ListX Model.KDTree Model.NdArr Model.C02_run.\n"
        "Import ListNotations.\nOpen Scope Z_scope.\n")
 
 
@@ -536,10 +536,12 @@ def coq_case(case, obs):
     dat = "(mk_data %s %d %s %d %s %s %s %s %s %d %s %s)" % (
         zl(obs["tgt_shape"]), DT_CODE[d["dtype"]], "true" if k else "false", kk, rows, mrows, fill, lit(DT_MAX[d["dtype"]]),
         zl(res["shape"]), DT_CODE[res["dtype"]], "[" + ";".join(lit(v) for v in res["vals"]) + "]", rmask)
-    return "(%s, %s)" % (geo, dat), ("F" if isf else "Z")
+    inshape = (list(obs["src_shape"]) if d["layout"] == "geo" else [len(d["values"])]) + ([k] if k else [])
+    return "(%s, %s, %s)" % (geo, dat, zl(inshape)), ("F" if isf else "Z")
 
 
-CODE_NAMES = {1: "valid_input_index", 2: "valid_output_index", 4: "index_array(empty-source path)", 8: "index_array not optimal for the exact distances",
+CODE_NAMES = {512: "translated get_sample: values", 1024: "translated get_sample: mask", 2048: "translated get_sample: shape",
+              4096: "translated get_sample: dtype", 8192: "translated get_sample raises / runs out of fuel", 1: "valid_input_index", 2: "valid_output_index", 4: "index_array(empty-source path)", 8: "index_array not optimal for the exact distances",
               16: "values", 32: "mask", 64: "shape", 128: "dtype"}
 
 
@@ -683,7 +685,7 @@ def run(ctx):
             name = "c02_%s_%03d" % (ty, j)
             index[name] = [it[0] for it in sh]
             ctype = "float" if ty == "F" else "Z"
-            named.append((name, HDR + "Definition cases : list (geo_case * @data_case %s) := [\n%s].\nEval vm_compute in (bad_codes case_code_%s cases).\n"
+            named.append((name, HDR + "Definition cases : list (geo_case * @data_case %s * list Z) := [\n%s].\nEval vm_compute in (bad_codes full_code_%s cases).\n"
                           % (ctype, ";\n".join(it[1] for it in sh), ty)))
     # Cartesian.transform_lonlats: model products with the implementation's own cos/sin as oracle table (binary64 only)
     X = []
